@@ -420,8 +420,8 @@ func (e *Engine) modelSort(st *State, fr *Frame, x Val, pos token.Pos, ins ssa.I
 	// permutation, as far as first-order reasoning needs it: a bijection p on the window
 	p := fresh("perm")
 	st.decls = append(st.decls, fmt.Sprintf("(declare-fun %s (Int) Int)", p), fmt.Sprintf("(declare-fun %s_inv (Int) Int)", p))
-	st.assume(fmt.Sprintf("(forall ((i Int)) (! (=> %s (and %s (= (select %s i) (select %s (%s i))) (= (%s_inv (%s i)) i))) :pattern ((%s i))))", in("i"), in("("+p+" i)"), row, oldrow, p, p, p, p))
-	st.assume(fmt.Sprintf("(forall ((i Int)) (! (=> %s (and %s (= (select %s (%s_inv i)) (select %s i)) (= (%s (%s_inv i)) i))) :pattern ((%s_inv i))))", in("i"), in("("+p+"_inv i)"), row, p, oldrow, p, p, p))
+	st.assume(fmt.Sprintf("(forall ((i Int)) (! (=> %s (and %s (= (select %s i) (select %s (%s i))) (= (%s_inv (%s i)) i))) :pattern ((%s i)) :pattern ((select %s i))))", in("i"), in("("+p+" i)"), row, oldrow, p, p, p, p, row))
+	st.assume(fmt.Sprintf("(forall ((i Int)) (! (=> %s (and %s (= (select %s (%s_inv i)) (select %s i)) (= (%s (%s_inv i)) i))) :pattern ((%s_inv i)) :pattern ((select %s i))))", in("i"), in("("+p+"_inv i)"), row, p, oldrow, p, p, p, oldrow))
 	st.setHeap(hn, hs, store(h, slRef(sv.S), row))
 }
 
